@@ -45,10 +45,21 @@ RECURSIVE HasBig(_)
 HasBig(j) == IF j.k = "leaf" THEN j.l \in BigLeaves
              ELSE IF j.k = "arr" THEN \E i \in DOMAIN j.e : HasBig(j.e[i])
              ELSE \E x \in DOMAIN j.m : HasBig(j.m[x])
+\* deep nesting: a leaf under d containers (all arrays, all objects, alternating); "bounded depth" is bounded by the JSON parser's
+\* recursion limit (128), not by a small number
+RECURSIVE Wrap(_, _, _)
+Wrap(t, d, shape) == IF d = 0 THEN t
+                     ELSE LET inner == Wrap(t, d - 1, shape)
+                              arr == shape = "arr" \/ (shape = "alt" /\ d % 2 = 0)
+                          IN IF arr THEN [k |-> "arr", e |-> <<inner>>] ELSE [k |-> "obj", m |-> [x \in {"a"} |-> inner]]
+TowerDepths == {2, 3, 7, 15, 16, 17, 31, 32, 33, 48, 64, 65}
+\* towers are carried as descriptors (the case file would otherwise nest deeper than a JSON reader accepts) and expanded for the maps
+Towers == {[k |-> "tower", l |-> l, d |-> d, sh |-> sh] : l \in {"i1", "i64max", "f05", "suni", "null", "true"}, d \in TowerDepths, sh \in {"arr", "obj", "alt"}}
+X(t) == IF t.k = "tower" THEN Wrap(Leaf(t.l), t.d, t.sh) ELSE t
 VARIABLE j
-Init == j \in Terms(Depth)
+Init == j \in Terms(Depth) \cup Towers
 Next == UNCHANGED j
 \* design level: the ideal maps round-trip everything; the faithful ones exactly everything without a big integer
-Design == IF Faithful THEN (RoundTrip(j) <=> ~HasBig(j)) ELSE RoundTrip(j)
-Case == PrintT(<<"CASE", ToJson([term |-> j, tag |-> In(j).t, out |-> Out(In(j)), big |-> HasBig(j)])>>)
+Design == IF Faithful THEN (RoundTrip(X(j)) <=> ~HasBig(X(j))) ELSE RoundTrip(X(j))
+Case == PrintT(<<"CASE", ToJson([term |-> j, tag |-> In(X(j)).t, out |-> IF j.k = "tower" THEN j ELSE Out(In(j)), big |-> HasBig(X(j))])>>)
 ====
